@@ -62,6 +62,7 @@ struct Session<'a> {
     incoming: PathBuf,  // metadata supplied by role holders
     editor: Option<RepositoryEditor>,
     generation: u64,
+    sources: Vec<(String, PathBuf)>,
 }
 
 impl<'a> Session<'a> {
@@ -138,6 +139,7 @@ pub fn run(rt: &tokio::runtime::Runtime, pool: &KeyPool, sc: &Value) -> Value {
         work: work.clone(),
         editor: None,
         generation: 0,
+        sources: Vec::new(),
     };
     for d in [&s.keydir, &s.metadata, &s.targets, &s.input, &s.incoming] {
         std::fs::create_dir_all(d).unwrap();
@@ -183,6 +185,7 @@ pub fn run(rt: &tokio::runtime::Runtime, pool: &KeyPool, sc: &Value) -> Value {
                     std::fs::write(&src, &content).unwrap();
                     let t = Session::target_of(&content, op.get("custom"));
                     s.editor.as_mut().unwrap().add_target(name, t)?;
+                    s.sources.push((name.to_string(), src.clone()));
                     Ok(json!([0, of_str(src.to_str().unwrap())]))
                 }
                 "remove_target" => {
@@ -252,6 +255,7 @@ pub fn run(rt: &tokio::runtime::Runtime, pool: &KeyPool, sc: &Value) -> Value {
                         let src = s.input.join(format!("hsrc{}-{}", results.len(), t["name"].as_str().unwrap().len()));
                         std::fs::write(&src, &content).unwrap();
                         te.add_target(t["name"].as_str().unwrap(), Session::target_of(&content, None))?;
+                        s.sources.push((t["name"].as_str().unwrap().to_string(), src.clone()));
                     }
                     te.version(nz(&op["version"], 1)).expires(expiry(base, &op["expires"]));
                     let keys = s.keys(&op["keys"]);
@@ -261,7 +265,13 @@ pub fn run(rt: &tokio::runtime::Runtime, pool: &KeyPool, sc: &Value) -> Value {
                     Ok(json!([0, of_str(dir.to_str().unwrap())]))
                 }
                 "update_delegated_targets" => {
-                    let dir = op["dir"].as_str().unwrap();
+                    let mut dir = op["dir"].as_str().unwrap().to_string();
+                    if let Some(k) = dir.strip_prefix('@') {
+                        let k: usize = k.parse().unwrap();
+                        let r: &Value = &results[k];
+                        dir = if r[0] == json!(0) { string(&r[1]) } else { "/nonexistent".to_string() };
+                    }
+                    let dir = dir.as_str();
                     let e = s.editor.as_mut().unwrap();
                     rt.block_on(e.update_delegated_targets(op["name"].as_str().unwrap(), dir_url(Path::new(dir)).as_str()))?;
                     Ok(json!([0]))
@@ -278,18 +288,31 @@ pub fn run(rt: &tokio::runtime::Runtime, pool: &KeyPool, sc: &Value) -> Value {
                     rt.block_on(signed.write(&md))?;
                     // publish targets: copy or symlink every source file given
                     let mut publish = Vec::new();
-                    for t in list(&op["publish"]) {
-                        let src = PathBuf::from(t["src"].as_str().unwrap());
-                        let tn = TargetName::new(t["name"].as_str().unwrap())?;
+                    let mut todo: Vec<(String, PathBuf)> = Vec::new();
+                    if op["publish"].as_str() == Some("all") {
+                        // latest source per name
+                        let mut seen = std::collections::HashSet::new();
+                        for (nm, src) in s.sources.iter().rev() {
+                            if seen.insert(nm.clone()) {
+                                todo.push((nm.clone(), src.clone()));
+                            }
+                        }
+                    } else {
+                        for t in list(&op["publish"]) {
+                            todo.push((t["name"].as_str().unwrap().to_string(), PathBuf::from(t["src"].as_str().unwrap())));
+                        }
+                    }
+                    for (nm, src) in todo {
+                        let tn = TargetName::new(nm.as_str())?;
                         let r = if op["link"].as_bool().unwrap_or(false) {
                             rt.block_on(signed.link_target(&src, &td, PathExists::Fail, Some(&tn)))
                         } else {
                             rt.block_on(signed.copy_target(&src, &td, PathExists::Fail, Some(&tn)))
                         };
-                        publish.push(match r {
+                        publish.push(json!([of_str(&nm), match r {
                             Ok(()) => json!([0]),
                             Err(e) => err_class(&e),
-                        });
+                        }]));
                     }
                     // carry over already published target files of the previous generation
                     copy_tree(&s.targets, &td);
